@@ -78,11 +78,9 @@ type noOpCompressor struct {
 }
 
 func (c *noOpCompressor) Reset(writer io.Writer) {
-	wc, ok := writer.(io.WriteCloser)
-	if !ok {
-		wc = &noOpCloser{writer}
-	}
-	c.WriteCloser = wc
+	// Like the other compressors, closing this one must not close the
+	// destination (which may go on to receive more data).
+	c.WriteCloser = &noOpCloser{writer}
 }
 
 type noOpDecompressor struct {
